@@ -97,3 +97,41 @@ def checkedAddSigned (t d : Int) : Option Int :=
 def formatYmd (t : Int) : Bytes := fmtDate (utcDate t)
 
 end SigV4.Rust.Chrono
+
+namespace SigV4.Rust
+
+/-- `hex::encode` (lower case). -/
+def hexEncode (s : Bytes) : Bytes := hexLower s
+
+/-- `s.split_once(c)`: the text before the first `c` and the text after it. -/
+def splitOnce (c : UInt8) : Bytes → Option (Bytes × Bytes)
+  | [] => none
+  | x :: xs =>
+    if x = c then some ([], xs)
+    else
+      match splitOnce c xs with
+      | some (a, b) => some (x :: a, b)
+      | none => none
+
+/-- `t.format("%Y%m%dT%H%M%SZ").to_string()`. -/
+def Chrono.formatCompact (t : Int) : Bytes := compactUtc t
+
+end SigV4.Rust
+
+namespace SigV4.Rust
+
+/-- `s.splitn(2, c)` collected: one piece, or the text before the first `c` and the text after it. -/
+def splitn2 (c : UInt8) (s : Bytes) : List Bytes :=
+  match splitOnce c s with
+  | some (a, b) => [a, b]
+  | none => [s]
+
+/-- A `HashMap<String, Vec<String>>` is kept as the list of its entries in insertion order (keys unique; the functions
+translated so far only look entries up and insert, so no iteration order is involved).
+`if let Some(v) = m.get_mut(&k) { v.push(x) } else { m.insert(k, vec![x]) }`: -/
+def mapPush (m : List (Bytes × List Bytes)) (k x : Bytes) : List (Bytes × List Bytes) :=
+  match m with
+  | [] => [(k, [x])]
+  | (k', vs) :: rest => if k' = k then (k', vs ++ [x]) :: rest else (k', vs) :: mapPush rest k x
+
+end SigV4.Rust
